@@ -22,7 +22,8 @@ RULE = ('history = generated program (direct/nested/with-items/async) + '
 
 def _kinds():
     from mv import history
-    return history.CMD_KINDS + ('orphan_update', 'orphan_update')
+    return history.CMD_KINDS + ('orphan_update', 'orphan_update',
+                                'lose_cas', 'lose_cas')
 
 
 WF_ALLOWED = {
@@ -80,6 +81,30 @@ def check_history(h, stats=None, case=None):
         viol.append({'kind': 'illegal-workflow-transition',
                      'detail': {'from': pair[0], 'to': pair[1],
                                 'event': list(ev)}})
+    # ---- lost compare-and-swap (injected): the loser must leave the row
+    # exactly as the concurrent stop committed it
+    inj_by_step = {}
+    for c in res.cas:
+        if c.get('injected'):
+            inj_by_step[(c.get('event') or (None,))[0]] = c
+    if stats is not None and inj_by_step:
+        stats.counters['lost_cas_injected'] += len(inj_by_step)
+    for step, label, snap in snaps:
+        c = inj_by_step.get(step)
+        if c is None:
+            continue
+        w = snap['wf'].get(c['id'])
+        if w is None:
+            continue
+        if w['state'] != c['to'] or (w['output'] or {}) != c['output'] \
+                or w['state_info'] != c['output']['result']:
+            viol.append({'kind': 'cas-loser-changed-the-finished-execution',
+                         'detail': {'winner_state': c['to'],
+                                    'winner_output': c['output'],
+                                    'state': w['state'],
+                                    'output': str(w['output'])[:200],
+                                    'state_info': str(w['state_info'])[:100],
+                                    'step': step, 'event': label}})
     # ---- committed rows after every step
     trace_by_step = {r['step']: r for r in res.trace}
     prev = None
@@ -239,7 +264,7 @@ def check_case(case, stats=None):
             if rec.get('pending_events', 0) >= 1:
                 nontriv = True
             if rec['cmd'] in ('late_result', 'late_update', 'revive',
-                              'orphan_update') or (
+                              'orphan_update', 'lose_cas') or (
                     rec['cmd'] == 'action_update' and tgt[3] in FINAL):
                 nontriv = True
             if rec.get('result') == 'exc':
